@@ -50,6 +50,10 @@ def check(run, replay=None):
             cov["evaluations"] += 1
             if t[1] == "singular" and any(x != "matrix_ill_conditioned" for x in t[3:6]):
                 run.finding("exception:singular", "counterexample", "an exactly singular %sx%s matrix: solve(vector), solve(matrix), inv gave %s instead of matrix_ill_conditioned" % (t[2], t[2], t[3:6]), {"case": "singular", "line": l})
+            if t[1] == "singular-symmetric" and any(x != "matrix_ill_conditioned" for x in t[3:7]):
+                run.finding("exception:singular-symmetric", "counterexample",
+                            "exactly singular symmetric %sx%s systems (rank-one matrix with a vector / a matrix right-hand side, zero matrix, rank-one in the other storage orientation) gave %s instead of matrix_ill_conditioned ('none' = a result was returned)" % (t[2], t[2], t[3:7]),
+                            {"case": "singular-symmetric", "line": l})
             if t[1] == "nonsquare" and t[3] != "invalid_operation":
                 run.finding("exception:nonsquare", "counterexample", "inv of a non-square matrix gave %s instead of invalid_operation" % t[3], {"case": "nonsquare", "line": l})
     cov["distinct_nontrivial"] = len(kinds)
